@@ -22,7 +22,10 @@ Inductive c17_case :=
 (* from_xarray (to_xarray f) on the implementation *)
 | CRound (exact : bool) (p1 p2 : list Q) (ds us : list string) (tf_ : Q) (n_ : list Z)
          (k : Z) (vd : option (list string)) (dt : string) (un : option string) (data : list Q)
-         (obs : option field).
+         (obs : option field)
+(* from_xarray on a DataArray whose coordinates / attributes are single precision: the implementation
+   computes the corners in float32, compared within [tol] of the axis scale *)
+| CImportTol (tol : Q) (xa : dataarray) (obs : option field).
 
 Definition build_field (p1 p2 : list Q) (ds us : list string) (tf_ : Q) (n_ : list Z)
            (k : Z) (vd : option (list string)) (dt : string) (un : option string) (data : list Q)
@@ -84,6 +87,21 @@ Definition field_close (exact : bool) (f g : field) : bool :=
   String.eqb (fdtype f) (fdtype g) && ostr_eqb (funit f) (funit g) &&
   qlist_eqb (fdata f) (fdata g).
 
+Definition qlist_close_tol (tol : Q) (sc a b : list Q) : bool :=
+  (length a =? length b)%nat && (length a =? length sc)%nat &&
+  forallb (fun x => x) (map3 (fun s x y => qclose tol s x y) sc a b).
+
+Definition field_close_tol (tol : Q) (f g : field) : bool :=
+  let rf := reg (fmesh f) in let rg := reg (fmesh g) in
+  let sc := map2 axis_scale (pmin rf) (pmax rf) in
+  qlist_close_tol tol sc (pmin rf) (pmin rg) && qlist_close_tol tol sc (pmax rf) (pmax rg) &&
+  strlist_eqb (dims rf) (dims rg) && strlist_eqb (units rf) (units rg) &&
+  Qeq_bool (tf rf) (tf rg) &&
+  zlist_eqb (n (fmesh f)) (n (fmesh g)) &&
+  (fnvdim f =? fnvdim g)%Z && ostrl_eqb (fvdims f) (fvdims g) &&
+  String.eqb (fdtype f) (fdtype g) && ostr_eqb (funit f) (funit g) &&
+  qlist_eqb (fdata f) (fdata g).
+
 (* bracketed comparison of an import *)
 Definition import_ok (exact : bool) (xa : dataarray) (obs : option field) : bool :=
   match obs with
@@ -108,6 +126,14 @@ Definition check_C17 (c : c17_case) : bool :=
       match build_field p1 p2 ds us tf_ n_ k vd dt un data with
       | Err _ => false
       | OK f => import_ok exact (to_xarray f None) obs
+      end
+  | CImportTol tol xa obs =>
+      match obs with
+      | Some g => match from_xarray_f fac_loose xa with
+                  | OK f => field_close_tol tol f g
+                  | Err _ => false
+                  end
+      | None => negb (is_ok (from_xarray_f fac_strict xa))
       end
   end.
 
